@@ -42,6 +42,10 @@ CLAIMED = {
          "Machine-checked theorems over an executable model of InstanceManager/Context: in every reachable state and for every fault pattern the managers' view of what is alive equals the truth, the trace is well formed (never two live instances of a class, teardown only of the live one hence at most once, hand-over only of the live instance), a teardown always clears the manager and never revives anything, and under keep_alive nothing is alive after the outermost context is left, whatever raised. Partial: leak-freedom without keep_alive and dependants-first ordering are decided by correspondence + an independent trace oracle only; the ordering clause is refuted under machine faults with reset_on_error (known finding D14, theorem C14_dependants_first_refuted).",
          "Trusted: Coq kernel + vm_compute; hand-written model coq/Context.v (machine = one init and one teardown check point; chain-like dependency table); the correspondence harness with instrumented dummy classes. Known finding: C14:machine-fault-resets-shared-prerequisite-under-reset_on_error.",
          "DESIGN.md 8/C14"),
+ "C15": ("Coq: clause theorems on the implementation model + an executable reference model (ContextSpec.v) written from the documentation; three-way correspondence real tbot.Context = implementation model = reference model on every generated program",
+         "Machine-checked clause theorems (shared request yields the same instance with no re-initialisation; keep_alive keeps it between requests; an exclusive request latches, blocks every other request with ContextError leaving the state untouched, and tears down at its end even under keep_alive; reset_on_error tears down before the exception reaches the caller, skips excepted; without reset_on_error an exception leaves exactly the state of a normal exit). PARTIAL: the equality of the observable trace with the reference model for all programs is not proved; it is decided by evaluation of both Coq models against the real implementation on every generated program (exhaustive pairs of requests over 3 classes x flag combinations, random programs to depth 4).",
+         "Trusted: Coq kernel + vm_compute; hand-written models coq/Context.v and coq/ContextSpec.v (rules D1-D10 from the docs, U1-U3 undocumented corners specified as observed); the correspondence harness; no machine faults in C15's programs.",
+         "DESIGN.md 8/C15"),
 }
 NOT_YET = "check not built yet (work in progress; will be claimed once its Coq theorems and correspondence check exist)"
 
